@@ -5,7 +5,7 @@
     last_id_millis / last_id_seq / length, ID text parsing with wrapping arithmetic.
     The wall clock behind `XADD key *` is universally quantified ([now_ms]). *)
 From Ferrous Require Import Base.Bytes Model.Resp Model.Types Model.Strings Model.Streams
-  Proofs.BytesFacts Proofs.StreamFacts.
+  Proofs.BytesFacts Proofs.StreamFacts Proofs.GroupFacts.
 From Coq Require Import Sorting.Sorted.
 Open Scope Z_scope.
 
@@ -78,6 +78,16 @@ Theorem c15_reads_pure :
   forall d parts,
   snd (h_xrange d parts) = d /\ snd (h_xrevrange d parts) = d /\ snd (h_xlen d parts) = d /\ snd (h_xread d parts) = d.
 Proof. exact xreads_pure. Qed.
+
+(** At the level of the commands: for every database in which all streams satisfy the
+    invariant, every argument list and every reported auto ID, the database after XADD,
+    XDEL, XTRIM is again such a database (the other stream commands do not touch entries). *)
+Theorem c15_commands_keep_invariant :
+  forall d parts oracle, DbInv d ->
+  DbInv (snd (h_xadd d parts oracle)) /\ DbInv (snd (h_xdel d parts)) /\ DbInv (snd (h_xtrim d parts)).
+Proof. exact stream_writes_db_inv. Qed.
+Theorem c15_empty_db_invariant : DbInv empty_db.
+Proof. exact DbInv_empty. Qed.
 
 (** XRANGE / XREVRANGE (StreamData::range with its two binary searches, as written)
     return exactly the present entries with start <= ID <= end, in ID order (reversed
